@@ -48,3 +48,18 @@ Example C03_example :
   wfb json_meta (BObj ["Qualifier"]) q = true /\ deps_ok json_tables q = true /\
   dec json_tables json_meta false (DcObj "Qualifier") (enc_auto json_tables (fun _ => false) false q) = Some q.
 Proof. vm_compute. repeat split; reflexivity. Qed.
+
+(* Store level: writing a store (three top-level lists, empty ones omitted) and reading the document back in strict
+   mode into an empty store yields exactly the same identifiables (grouped by kind), when ids are unique. *)
+From Basyx Require Import model.JsonStore proofs.JsonStoreProofs.
+Theorem C03_identifiables_dispatch : dispatch_ok json_tables "modelType" identifiable_classes = true.
+Proof. vm_compute. reflexivity. Qed.
+
+Theorem C03_store_roundtrip :
+  forall (lt : string -> bool) (objs : list value),
+    Forall (good json_tables json_meta) objs -> NoDup (ids objs) ->
+    read_store json_tables json_meta (write_store json_tables lt objs) =
+    inl (part "AssetAdministrationShell" objs ++ part "Submodel" objs ++ part "ConceptDescription" objs)%list.
+Proof.
+  intros lt objs. exact (store_roundtrip json_tables json_meta lt C03_json_compat C03_identifiables_dispatch objs).
+Qed.
